@@ -19,6 +19,7 @@ fn main() {
         Some("meta") => service::meta(&args[1..]),
         Some("raw") => service::raw(&args[1..]),
         Some("bind") => service::bind(&args[1..]),
+        Some("host-style") => service::host_style(),
         Some("wire-status") => service::wire_status(&args[1..]),
         Some("wire-de") => service::wire_de(&args[1..]),
         Some("wire-ser") => service::wire_ser(&args[1..]),
